@@ -29,6 +29,7 @@ type Env struct {
 	depth       int
 	loop          *loopInfo // loop whose invariant is being evaluated
 	inOld         bool
+	wantAddr      bool // lookupLocal returns the address of a heap local instead of its value
 	live          *Env // the environment outside old()
 	paramsAtEntry bool                 // in ensures: parameter names denote entry values, other locals their final values
 	fvOverride  map[string]freeVarInfo // free variables of a callee closure, bound at a call / go site
@@ -205,7 +206,33 @@ func (e *Env) lookupLocal(name string) (tv, bool) {
 	if !ok {
 		return tv{}, false
 	}
+	if e.wantAddr {
+		return tv{p, types.NewPointer(elem)}, true
+	}
 	return tv{e.u.loadVal(e.st, elem, p.(*Term)), elem}, true
+}
+
+// localArrayAddr: the address of a local array variable that lives on the heap.
+func (e *Env) localArrayAddr(name string) (*Term, *types.Array, bool) {
+	sub := *e
+	sub.wantAddr = true
+	r, ok := sub.lookupLocalQuiet(name)
+	if !ok {
+		return nil, nil, false
+	}
+	p, isT := r.v.(*Term)
+	if !isT || p.Sort != SPtr || r.t == nil {
+		return nil, nil, false
+	}
+	pe := ptrElem(r.t)
+	if pe == nil {
+		return nil, nil, false
+	}
+	at, isArr := types.Unalias(pe).Underlying().(*types.Array)
+	if !isArr {
+		return nil, nil, false
+	}
+	return p, at, true
 }
 
 func (e *Env) eval(x Expr) tv {
@@ -267,8 +294,24 @@ func (e *Env) eval(x Expr) tv {
 	case *EIdx:
 		return e.index(x)
 	case *ESliceE:
+		if id, isID := x.X.(*EIdent); isID {
+			if p, at, ok := e.localArrayAddr(id.Name); ok {
+				// a[lo:hi] of a local array
+				lo, hi := IntLit(0), IntLit(at.Len())
+				if x.Lo != nil {
+					lo = u.evalTerm(e, x.Lo)
+				}
+				if x.Hi != nil {
+					hi = u.evalTerm(e, x.Hi)
+				}
+				return tv{mkslice(parr(p), Add(pidx(p), lo), Sub(hi, lo), Sub(IntLit(at.Len()), lo)), types.NewSlice(at.Elem())}
+			}
+		}
 		base := e.eval(x.X)
-		s := base.v.(*Term)
+		s, isTerm := base.v.(*Term)
+		if !isTerm {
+			e.fail("slice expression on %s", exprString(x.X))
+		}
 		lo := IntLit(0)
 		if x.Lo != nil {
 			lo = u.evalTerm(e, x.Lo)
